@@ -192,6 +192,23 @@ func init() {
 		op := func() *Obs { return w.Token(f, w.AuthFor("A")) }
 		return []func() *Obs{op, op}, true
 	}))
+	// the verification page records the approval with a freshly built session (no expiry map yet): the stored request
+	// is shared by overlapping polls, so even reading it must not write
+	for _, st := range []string{"default", "openid", "jwt"} {
+		st := st
+		registerScenario(c19APIScenario("poll-poll-fresh-"+st+"-session", Profile{Session: st}, func(w *World) ([]func() *Obs, bool) {
+			do := w.DeviceAuth(url.Values{"client_id": {"A"}, "scope": {"offline a"}}, w.AuthFor("A"))
+			if sig, err := w.Dev.UserCodeSignature(nil, do.Str("user_code")); err == nil {
+				if req, ok := w.Mem.DeviceAuths[sig]; ok {
+					req.SetSession(w.NewSession("device-user"))
+					req.SetUserCodeState(fosite.UserCodeAccepted)
+				}
+			}
+			f := url.Values{"grant_type": {"urn:ietf:params:oauth:grant-type:device_code"}, "device_code": {do.Str("device_code")}}
+			op := func() *Obs { return w.Token(f, w.AuthFor("A")) }
+			return []func() *Obs{op, op}, true
+		}))
+	}
 	registerScenario(c19APIScenario("deviceauth-poll", def, func(w *World) ([]func() *Obs, bool) {
 		do := w.DeviceAuth(url.Values{"client_id": {"A"}, "scope": {"offline a"}}, w.AuthFor("A"))
 		w.AcceptUserCode(do.Str("user_code"), true)
@@ -446,7 +463,11 @@ func init() {
 				r.HarnessErrs = append(r.HarnessErrs, "vacuous scenario "+n+": no operation succeeded in any explored execution")
 			}
 		}
-		r.Bounds = map[string]any{"api_scenarios": names, "preemption_bound_2_threads": b2, "preemption_bound_3_threads": b3, "storage_call_granularity_bounds (-1 = all interleavings)": storageBounds,
+		// memory the scheduler's hooks cannot see: the backing array of a Config slice handed to a callee that appends
+		if !r.MergeJobs(r.Pool.Do("c19sharedconfig", []any{map[string]string{}}, r.Deadline)) {
+			r.Exhaustive = false
+		}
+		r.Bounds = map[string]any{"shared_config_slices": "Config.SanitationWhiteList / RefreshTokenScopes / AllowedPromptValues built with spare capacity: no request may write into the spare capacity (every request would, concurrently and unsynchronised)", "api_scenarios": names, "preemption_bound_2_threads": b2, "preemption_bound_3_threads": b3, "storage_call_granularity_bounds (-1 = all interleavings)": storageBounds,
 			"store_triples": "every multiset of 3 operations per table (5 tables, 30 operations) on colliding keys from a populated state", "store_triple_preemption_bound": bs}
 		r.Rule = "stateless depth-first exploration of schedules of the real code under a cooperative scheduler: decision points at every storage call, random read and (lock granularity) lock acquisition of the vsync shim; each complete execution is checked for deadlock, panic, happens-before data races on instrumented fields, duplicate token values, inactive handed-out tokens, and (store triples) equality of results + final store dump with some sequential permutation; states = executions, transitions = scheduling points; distinct = distinct observable outcomes per scenario"
 		r.Assumptions = []string{"race freedom is decided for fields accessed inside pointer-receiver methods of ory/fosite types (overlay access hooks); other memory is not observed", "2-3 goroutines; preemption bounds as stated", "Go's memory model gives sequential consistency for race-free executions, so interleaving semantics is adequate once no race is reported"}
@@ -666,4 +687,78 @@ func binom(n, k int) int {
 func schedPoints(c schedCase) int {
 	x, _ := schedRunOnce(scenarios[c.Scenario], c, nil)
 	return len(x.Points)
+}
+
+// c19SharedConfig: slices of the Config are shared by all requests. A request that appends to one of them (instead of
+// to a copy) writes into its backing array whenever it has spare capacity: an unsynchronised write by every request.
+// The access hooks do not see element writes of a slice passed as an argument, so this is checked on the state: after
+// each kind of request the spare capacity must be untouched.
+func c19SharedConfig(res *WRes) {
+	mk := func(vals ...string) []string { return append(make([]string, 0, 16), vals...) }
+	w := NewWorld(Profile{})
+	w.Cfg.SanitationWhiteList = mk("code", "redirect_uri")
+	w.Cfg.RefreshTokenScopes = mk("offline", "offline_access")
+	w.Cfg.AllowedPromptValues = mk("login", "none", "consent", "select_account")
+	slices := map[string]*[]string{"SanitationWhiteList": &w.Cfg.SanitationWhiteList, "RefreshTokenScopes": &w.Cfg.RefreshTokenScopes, "AllowedPromptValues": &w.Cfg.AllowedPromptValues}
+	check := func(after string) {
+		for name, sl := range slices {
+			full := (*sl)[:cap(*sl)]
+			for i := len(*sl); i < len(full); i++ {
+				if full[i] != "" {
+					res.violate(Violation{Property: "C19", Fingerprint: "C19/request-writes-into-shared-config-slice/" + name, What: fmt.Sprintf("%s wrote %q into the spare capacity of Config.%s (element %d): the slice's backing array is shared by all requests, so concurrent requests write it without synchronisation", after, full[i], name, i), Engine: "c19sharedconfig", Case: map[string]string{}, Expected: "requests append to a copy", Observed: full})
+					return
+				}
+			}
+		}
+	}
+	ops := []struct {
+		name string
+		do   func()
+	}{
+		{"an authorization request (code flow)", func() { c19Authz(w, "A", "code", "offline a") }},
+		{"an authorization request (hybrid flow)", func() { c19Authz(w, "A", "code id_token", "openid offline a") }},
+		{"an authorization request (implicit flow)", func() { c19Authz(w, "A", "token", "a") }},
+		{"a password grant and its refresh", func() {
+			o := w.Token(url.Values{"grant_type": {"password"}, "username": {"peter"}, "password": {"pw-peter"}, "scope": {"offline a"}}, w.AuthFor("A"))
+			w.Token(url.Values{"grant_type": {"refresh_token"}, "refresh_token": {o.Str("refresh_token")}}, w.AuthFor("A"))
+		}},
+		{"a code redemption", func() {
+			code := c19Authz(w, "A", "code", "openid offline a").Param("code")
+			w.Token(url.Values{"grant_type": {"authorization_code"}, "code": {code}, "redirect_uri": {"https://A.example/cb"}}, w.AuthFor("A"))
+		}},
+		{"a pushed authorization request and its use", func() {
+			ru := w.PAR(url.Values{"client_id": {"A"}, "redirect_uri": {"https://A.example/cb"}, "state": {"state-12345678"}, "response_type": {"code"}, "scope": {"a"}}, w.AuthFor("A")).Str("request_uri")
+			w.Authorize(url.Values{"client_id": {"A"}, "request_uri": {ru}}, AuthzOpts{})
+		}},
+		{"a device authorization and poll", func() {
+			do := w.DeviceAuth(url.Values{"client_id": {"A"}, "scope": {"offline a"}}, w.AuthFor("A"))
+			w.AcceptUserCode(do.Str("user_code"), true)
+			w.Token(url.Values{"grant_type": {"urn:ietf:params:oauth:grant-type:device_code"}, "device_code": {do.Str("device_code")}}, w.AuthFor("A"))
+		}},
+	}
+	for _, op := range ops {
+		op.do()
+		res.Evals++
+		res.Trans++
+		res.distinct("shared-config|" + op.name)
+		n := len(res.Viol)
+		check(op.name)
+		if len(res.Viol) > n {
+			return
+		}
+	}
+	res.note("shared-config-slices-checked")
+}
+
+func init() {
+	registerWorker("c19sharedconfig", func(json.RawMessage) (any, error) {
+		res := &WRes{}
+		c19SharedConfig(res)
+		return res, nil
+	})
+	replayFns["c19sharedconfig"] = func(json.RawMessage) ([]Violation, error) {
+		res := &WRes{}
+		c19SharedConfig(res)
+		return res.Viol, nil
+	}
 }
